@@ -385,6 +385,23 @@ func runCheck(prop, tier string, seed int) int {
 			reason := "obligation discharged on the unchanged tree (ledger) and fails now"
 			if lo == nil {
 				reason = "new obligation generated from the changed code does not discharge"
+				// Memory-safety obligations are named after the expression they guard, so a harmless rewrite gives them
+				// new names. Where the ledger already holds an UNDECIDED obligation of the same kind for this function,
+				// that kind of safety was never claimed for the function: a new one that does not discharge is undecided
+				// too, not a violation.
+				if lu != nil && isSafetyKind(o.Kind) {
+					unclaimed := false
+					for _, other := range lu.Obligations {
+						if other.Kind == o.Kind && other.Status == "undecided" {
+							unclaimed = true
+						}
+					}
+					if unclaimed {
+						undecided = append(undecided, o.Name)
+						total--
+						continue
+					}
+				}
 			}
 			rp := writeReplay(u, o, reason)
 			v := violation{obl: o.Name, replay: rp, what: o.Text}
@@ -585,4 +602,12 @@ func cmdRelock(args []string) {
 	}
 	data, _ := json.MarshalIndent(ledger, "", " ")
 	os.WriteFile(filepath.Join(verifDir, "obligations.lock.json"), data, 0o644)
+}
+
+func isSafetyKind(k string) bool {
+	switch k {
+	case "nilderef", "idx", "nilmap", "typeassert", "div0", "nopanic", "makelen":
+		return true
+	}
+	return false
 }
